@@ -54,6 +54,8 @@ def cmdServerNick (c : Ctx) (sid : Id) (m : IrcMsg) : Res Ctx := do
   let s ← getS c sid
   if m.params.length == 1 then return c
   let p0 ← param m 0
+  if !isValidNickname p0 then
+    return sendSvc c (srv c "432" ["*", p0, "Erroneous nickname"])
   if AMap.contains c.st.nicks (nickToLower p0) then
     return sendSvc c (srv c "433" ["*", p0, "Nickname is already in use"])
   let id : Id := ⟨s.id.id, fnv64 p0⟩
